@@ -328,6 +328,8 @@ H("c15_long_jump", module="verif_a64gen.rs", variant="macos", props=["C15", "C11
 H("c15_abs", module="verif_arm64.rs", props=["C15", "C13", "C17"], fns=[(A64P, "generate_will_execute_jit_code_abs"), (A64P, "append_instruction"), (COM, "inject_asm_code")] + _GEN_FNS, timeout=3000)
 H("c15_bool", module="verif_arm64.rs", props=["C15", "C10", "C13"], fns=[(A64P, "generate_will_return_boolean_jit_code"), (A64P, "write_instruction")] + _GEN_FNS)
 H("c11_a64_range", module="verif_arm64.rs", props=["C11", "C15", "C12", "C02"], fns=[(A64P, "apply_branch_patch"), (COM, "patch_function", 0)], covers=["COVER:end", "COVER:lowest", "COVER:highest"])
+H("c02_a64_top", module="verif_arm64.rs", props=["C02", "C01", "C11", "C12", "C10"], fns=[(A64P, "replace_function_with_other_function"), (A64P, "replace_function_return_boolean")], covers=["COVER:end", "COVER:bool-then-fake"], timeout=240)
+H("c02_a64_top_fixed_addr", module="verif_arm64.rs", props=["C02", "C01", "C11", "C12", "C10"], fns=[(A64P, "replace_function_with_other_function"), (A64P, "replace_function_return_boolean")], covers=["COVER:end", "COVER:bool-then-fake"], bounded="history depth 2 (one earlier installation), one concrete entry address", timeout=240)
 H("c15_a64_out_of_range_refused", module="verif_arm64.rs", props=["C15", "C11", "C05"], fns=[(A64P, "apply_branch_patch")], expects_panic=True, covers=[], covers_unreachable=["COVER:wrapped-branch-written"])
 
 ARM = "injector_core/patch_arm.rs"
@@ -337,6 +339,7 @@ _ARM_ASSUME = "read_bytes / patch_function replaced by recorders (32-bit address
 for _n in ["c16_a32", "c16_t32_aligned", "c16_t32_unaligned"]:
     H(_n, module="verif_arm.rs", props=["C16"], fns=_ARM_FNS, min_obligations=9)
 H("c16_bool", module="verif_arm.rs", props=["C16", "C10"], fns=_ARM_FNS)
+H("c16_again", module="verif_arm.rs", props=["C16", "C02"], fns=_ARM_FNS)
 
 # ------------------------------------------------------------------------------------------------
 # C10.gate: one harness per member of the enumerated signature family
@@ -633,6 +636,44 @@ def scan_lock_released_by_glue(repo):
 
 STATIC["c04_lock_released_by_drop_glue"] = dict(props=["C04", "C05"], fn=scan_lock_released_by_glue, obligation="C04.lock.released-on-every-exit",
                                                 replay_static=lambda verif: _replay_bin("c04_restore_fault", [], verif))
+
+# ------------------------------------------------------------------------------------------------
+# Frame of the per-call contracts: every Kani harness starts from the initial value of every static, so a contract
+# proved there covers all histories only if the functions under contract keep no process-wide state. The scan
+# checks that frame assumption; when it fails, native history replays on the real code decide (violation when one
+# fails; otherwise the state is recorded as an assumption and the depth-2 history harnesses stand).
+def scan_backend_state(repo):
+    hits = []
+    d = os.path.join(repo, "src", "injector_core")
+    for fn in sorted(os.listdir(d)):
+        if not fn.endswith(".rs"):
+            continue
+        t = open(os.path.join(d, fn)).read()
+        m = re.search(r"#\[cfg\(test\)\]\s*mod\s+\w+\s*\{", t)
+        if m:
+            t = t[:m.start()] + t[extract.match_brace(t, m.end() - 1) + 1:]
+        code = "\n".join(l for l in t.split("\n") if not l.strip().startswith("//"))
+        for mm in re.finditer(r"(?m)^\s*(?:pub(?:\([^)]*\))?\s+)?static\s+(?:mut\s+)?(\w+)\s*:", code):
+            hits.append("%s: static %s" % (fn, mm.group(1)))
+        for mm in re.finditer(r"\b(thread_local!|lazy_static!)", code):
+            hits.append("%s: %s" % (fn, mm.group(1)))
+    if hits:
+        return False, "process-wide state in the patching core (%s): per-call contracts proved from the initial state do not by themselves cover every history" % "; ".join(hits)
+    return True, "no static / thread_local item in src/injector_core: the functions under contract depend on their arguments and on memory only"
+
+
+def _replay_histories(verif):
+    import native_ext
+    a = _replay_bin("c02_relife", [], verif)
+    if a.get("reproduced"):
+        return a
+    b = native_ext.run(verif, os.environ.get("VERIF_WORK_SUFFIX", ""))
+    if b.get("reproduced"):
+        return b
+    return dict(reproduced=False, x86_64=a, extracted_back_ends=b)
+
+
+STATIC["backend_keeps_no_state"] = dict(props=["C02", "C01"], fn=scan_backend_state, obligation="C02.frame.no-hidden-state", replay_static=_replay_histories, soft=True)
 
 # C14 ("all other async functions behave as before") composes C03 / C12 for sibling poll functions: the
 # allocator's "only what it mapped is ever unmapped" obligations are therefore shared with C14 too
